@@ -10,9 +10,11 @@
    included) whose members accept pairwise disjoint kinds of data ([pairwise_disjoint],
    a computed check against the generated gate and scalar tables), at ANY nesting depth --
    hence named _partial; and that the side condition on unions is necessary (_refuted,
-   witness replayed on pane by the check); and the statement for PLAIN DATACLASSES
-   ([plain_class]: mapping output, every field read and written under its own name, field
-   types in [rt_ty], defaults of their field's type), from either input layout, together with
+   witness replayed on pane by the check); and the statement for DATACLASSES with any
+   renaming, aliases and input names, as long as every field is read back under the key it is
+   written under and no two fields share a key ([renamed_class]; [plain_class] is the special
+   case of fields read and written under their own names), field types in [rt_ty], defaults
+   of their field's type, from either input layout, together with
    what changes (the record of explicitly set fields becomes "all fields"); and the statement
    at ANY NESTING of plain dataclasses and sets inside lists, tuples, text-keyed mappings, other
    dataclasses and Optional ([rt2_ty]), up to that record ([same_val], what == compares).
@@ -133,7 +135,7 @@ Proof.
     - repeat constructor.
     - repeat constructor; simpl; try (exists VNone; reflexivity); try (exists (VStr "p"); reflexivity).
     - repeat constructor; simpl; intuition discriminate.
-    - left. split; reflexivity. }
+    - left. repeat split; try reflexivity; [repeat constructor; simpl; intuition discriminate|repeat (constructor; try reflexivity)]. }
   apply r2_class.
   - apply Forall_cons; [apply r2_base; constructor|].
     apply Forall_cons; [apply r2_optional; exact RP|].
@@ -142,5 +144,37 @@ Proof.
     apply Forall_cons; [exact RP|]. apply Forall_cons; [apply r2_base; constructor|constructor].
   - repeat constructor; simpl. exists VNone. reflexivity.
   - repeat constructor; simpl; intuition discriminate.
-  - left. split; reflexivity.
+  - left. repeat split; try reflexivity; [repeat constructor; simpl; intuition discriminate|repeat (constructor; try reflexivity)].
 Qed.
+
+(* renamed fields: class rename styles, aliases, explicit input / output names -- any naming under which every field reads back
+   the key it is written under ([reads_own_output], computed with the very lookup the converter uses) and no two fields share a key *)
+Theorem C05_renamed_dataclass_roundtrip : forall h fs v x,
+  renamed_class h fs -> c_out_tuple h = false -> has_fmt FStruct h = true -> tc (TClass h fs) v = Ok x ->
+  exists fields setf d,
+    x = VInst (c_name h) fields setf /\
+    into_data (TClass h fs) x = Ok d /\
+    tc (TClass h fs) d = Ok (VInst (c_name h) fields (map fst fields)).
+Proof. exact class_roundtrip_renamed. Qed.
+Print Assumptions C05_renamed_dataclass_roundtrip.
+(* non-vacuity: class R(rename='camel'): my_field: int = field(aliases=['mf']); other_one: str = 'o'  (written as myField / otherOne) *)
+Example C05_renamed_class_example :
+  let fs := [(mkFld "my_field" ["my_field"; "myField"; "mf"] "myField" true false false DNone, TScalar SInt);
+             (mkFld "other_one" ["other_one"; "otherOne"] "otherOne" true false false (DValue (VStr "o")), TScalar SStr)] in
+  renamed_class (mkCls "R" [FStruct] false false HNone) fs /\
+  (tc (TClass (mkCls "R" [FStruct] false false HNone) fs) (VDict [(VStr "mf", VInt 4)]) =
+     Ok (VInst "R" [("my_field", VInt 4); ("other_one", VStr "o")] ["my_field"])) /\
+  (into_data (TClass (mkCls "R" [FStruct] false false HNone) fs) (VInst "R" [("my_field", VInt 4); ("other_one", VStr "o")] ["my_field"]) =
+     Ok (VDict [(VStr "myField", VInt 4); (VStr "otherOne", VStr "o")])).
+Proof.
+  repeat split; try (vm_compute; reflexivity).
+  - repeat constructor; simpl. exists (VStr "o"). reflexivity.
+  - repeat constructor; simpl; intuition discriminate.
+  - repeat constructor; simpl; intuition discriminate.
+  - repeat (constructor; try reflexivity).
+Qed.
+(* ... and a field that does NOT read back its own key is outside: out_name 'X' with input names that do not list it *)
+Example C05_asymmetric_name_is_outside :
+  let fs := [(mkFld "a" ["a"] "X" true false false DNone, TScalar SInt)] in
+  ~ Forall (reads_own_output fs) fs.
+Proof. intros fs H. inversion H as [|? ? R _]. discriminate R. Qed.
